@@ -241,6 +241,19 @@ func runGate(r *refRun, sc *CScen) {
 		case <-time.After(20 * time.Millisecond):
 		}
 	}
+	// everything has settled: one more lookup per address, which meets no reload and must be answered from the last
+	// generation installed (whatever lookups that were in flight across a reload left behind)
+	for k, a := range sc.Addrs {
+		addr := parseAddr(a)
+		addr.Port = 31000 + k
+		rec.Emit(E{"e": "lk", "i": 100 + k, "phase": "start", "addr": B(addr.IP)})
+		key, h, err := ld.Get(context.Background(), addr)
+		kk := key
+		if kk == nil {
+			kk = []byte{}
+		}
+		rec.Emit(E{"e": "lk", "i": 100 + k, "phase": "end", "ok": err == nil && key != nil && h != nil, "key": B(kk)})
+	}
 	// configurations handed to the loader must not have been written
 	changed := []int{}
 	for i := range cfgs {
